@@ -38,6 +38,9 @@ MCNext ==
 
 MCSpec == MCInit /\ [][MCNext]_mvars
 
+(* vacuity bookkeeping and the last event do not influence behaviour *)
+MCView == <<p, [mon EXCEPT !.seen = {}]>>
+
 NoViolation == mon.viols = {}
 
 (* the monitor's ghost state agrees with the model's ghost state *)
